@@ -981,3 +981,8 @@ M('C03', 'attachment-copies-written-over-surviving-decisions', STR, "           
 T('C03', 'twin-surviving-decisions-dropped-by-inline-filter', STR, '    _drop_decisions_on_keys(decisions, base_path, ("nbdime-conflicts",))\n',
   '    decisions.decisions = [d for d in decisions if not any(e.key == "nbdime-conflicts" for e in list(d.local_diff or []) + list(d.remote_diff or []))]\n')
 M('C04', 'bundled-decisions-moved-to-the-list-level', STR, "            key = d.common_path[level]\n", "            key = d.common_path[level]\n            d = push_patch_decision(d, d.common_path[level:])\n", 'R04.11')
+M('C03', 'both-sided-removal-branch-dropped', MG, "        if len(ldiff) == 2 and len(rdiff) == 2:\n            # Same length removals ensured by chunking\n            assert ldiff[1].length == rdiff[1].length\n            decisions.agreement(path, ldiff[1:], rdiff[1:])\n        elif len(ldiff) == 2 or len(rdiff) == 2:",
+  "        if len(ldiff) == 2 or len(rdiff) == 2:", 'R03.28')
+M('C03', 'transients-none-when-not-ignored', MNB, "    ignore_transients = args.ignore_transients if args else True\n    if ignore_transients:\n", "    ignore_transients = args.ignore_transients if args else True\n    strategies.transients = None if not ignore_transients else []\n    if ignore_transients:\n", 'R03.29')
+T('C03', 'twin-transients-empty-list-when-not-ignored', MNB, "    ignore_transients = args.ignore_transients if args else True\n    if ignore_transients:\n", "    ignore_transients = args.ignore_transients if args else True\n    strategies.transients = [] if not ignore_transients else []\n    if ignore_transients:\n")
+M('C04', 'decisions-file-in-locale-encoding', APP, 'with io.open(mfn, "w", encoding="utf8") as outfile:', 'with io.open(mfn, "w") as outfile:', 'R04.12')
